@@ -143,8 +143,7 @@ func (r *recStream) Send(m *regattapb.ReplicateResponse) error {
 		ev["kind"] = x.ErrorResponse.Error.String()
 	case *regattapb.ReplicateResponse_CommandsResponse:
 		ev["kind"] = "CMDS"
-		var idx, labels []uint64
-		var kinds []string
+		idx, labels, kinds := []uint64{}, []uint64{}, []string{} // never JSON null: a message without commands is an observation
 		for _, c := range x.CommandsResponse.Commands {
 			idx = append(idx, c.LeaderIndex)
 			li := uint64(0)
@@ -184,6 +183,11 @@ type lrBeh struct {
 }
 
 func mkEntryOf(idx uint64, size int, rng *rand.Rand) (raftpb.Entry, string) {
+	if rng.Intn(14) == 0 {
+		// an encoded entry whose payload is not a command (cut in the middle of a field): it cannot be delivered
+		cmd, _ := (&regattapb.Command{Table: []byte("tbl"), Type: regattapb.Command_PUT, Kv: &regattapb.KeyValue{Key: []byte(fmt.Sprintf("k%d", idx)), Value: make([]byte, 40)}}).MarshalVT()
+		return raftpb.Entry{Index: idx, Term: 1, Type: raftpb.EncodedEntry, Cmd: append([]byte{0}, cmd[:len(cmd)-7]...)}, "bad"
+	}
 	switch rng.Intn(6) {
 	case 0:
 		return raftpb.Entry{Index: idx, Term: 1, Type: raftpb.ConfigChangeEntry, Cmd: make([]byte, size*lrUnit-150)}, "dummy"
